@@ -97,6 +97,11 @@ func (w *verifSerialWorld) call(kind int, agent int, in *verifSerialIn) error {
 		req := PeerRequest{Num: 1}
 		_, err := w.p.Peer(ctx, sigs.SignFor(id, "vipnode_peer", nonce, req), id, nonce, req)
 		return err
+	case 2: // the shared host's own keep-alive (signed by the host)
+		hid := verifapi.NodeID(1)
+		req := UpdateRequest{BlockNumber: 2}
+		_, err := w.p.Update(ctx, sigs.SignFor(hid, "vipnode_update", nonce, req), hid, nonce, req)
+		return err
 	default: // reconnect as a client
 		_, err := VerifConnect(w.p, &VerifHost{Name: "c"}, id, false, "")
 		return err
@@ -113,7 +118,7 @@ func VerifC10Serial() {
 		linked: []bool{verifapi.Bool("linked0"), verifapi.Bool("linked1")}}
 	dt := verifapi.Dur("dt")
 	verifapi.Assume(dt > 0 && dt < 100000000000)
-	k0, k1 := verifapi.Choose("call0", 2), verifapi.Choose("call1", 2)
+	k0, k1 := verifapi.Choose("call0", 2), verifapi.Choose("call1", 3)
 	conc := verifSerialBuild(in, "x")
 	ab := verifSerialBuild(in, "y")
 	ba := verifSerialBuild(in, "z")
@@ -129,8 +134,13 @@ func VerifC10Serial() {
 	done := make(chan error, 2)
 	go func() { done <- conc.call(k0, 0, in) }()
 	go func() { done <- conc.call(k1, 1, in) }()
-	<-done
-	<-done
+	e1, e2 := <-done, <-done
+	if e1 != nil {
+		verifapi.Observe("conc-error-a", e1.Error())
+	}
+	if e2 != nil {
+		verifapi.Observe("conc-error-b", e2.Error())
+	}
 	verifapi.Reach("c10.serial")
 	got := verifapi.Snapshot(conc.db)
 	verifapi.Assert(verifapi.Same(got, verifapi.Snapshot(ab.db)) || verifapi.Same(got, verifapi.Snapshot(ba.db)), "c10.final-state-equals-a-serial-order")
